@@ -93,9 +93,7 @@ pub(super) struct SchedRun {
 /// by calls with a doubling extra allowance). None: not applicable (more than one script group, a
 /// TYPE_ID group, no end within the round cap)
 pub(super) fn sched_run(c: &Case, limits: &[u64]) -> Option<SchedRun> {
-    if c.groups.len() != 1 || c.groups[0].tid {
-        return None;
-    }
+    // programs that end in a VM error report it through `as_group_vm_error`; everything else is traced
     let v = &c.v;
     let mut inputs: Vec<String> = vec![];
     let mut outputs: Vec<String> = vec![];
@@ -120,18 +118,23 @@ pub(super) fn sched_run(c: &Case, limits: &[u64]) -> Option<SchedRun> {
             Err(e) => break Err(e),
             Ok(VerifyResult::Completed(n)) => break Ok(n),
             Ok(VerifyResult::Suspended(s)) => {
-                let Some(f) = s.state.clone() else {
-                    ckb_script::verif_hook::stop();
-                    return None;
-                };
                 if servable_io(&s) {
                     io_skipped += 1;
                 }
                 inputs.push("|".into());
-                outputs.push(show_full(&f));
-                if last == Some(f.total_cycles) { boost = (boost * 2).max(1) } else { boost = 0 }
-                last = Some(f.total_cycles);
-                states.push(f);
+                // the TransactionState: group index, cycles of the completed groups, recorded limit
+                outputs.push(format!("T[g={},cur={},lim={}]", s.current, s.current_cycles, s.limit_cycles));
+                let pos = (s.current as u64) << 48 | s.state.as_ref().map(|f| f.total_cycles).unwrap_or(0);
+                match &s.state {
+                    Some(f) => {
+                        outputs.push(show_full(f));
+                        states.push(f.clone());
+                    }
+                    // ChunkState::suspended_type_id(): the system script keeps no state
+                    None => outputs.push("S-".into()),
+                }
+                if last == Some(pos) { boost = (boost * 2).max(1) } else { boost = 0 }
+                last = Some(pos);
                 state = Some(s);
             }
         }
@@ -141,12 +144,15 @@ pub(super) fn sched_run(c: &Case, limits: &[u64]) -> Option<SchedRun> {
         }
     };
     ckb_script::verif_hook::stop();
+    // final result with the group the error is attributed to
     outputs.push(match &r {
         Ok(n) => format!("done:0:{n}"),
         Err(e) => match e.downcast_ref::<TransactionScriptError>().map(|t| t.script_error()) {
-            Some(ScriptError::ValidationFailure(_, code)) => format!("done:{code}"),
-            _ if is_deadlock(e) => "end:deadlock".to_string(),
-            _ => "end:err".to_string(),
+            Some(ScriptError::ValidationFailure(_, code)) => format!("done:{code}@{}", group_of(&c.groups, e)),
+            Some(ScriptError::Other(_)) => "end:other".to_string(),
+            Some(ScriptError::CyclesOverflow(..)) => "end:overflow".to_string(),
+            _ if is_deadlock(e) => format!("end:deadlock@{}", group_of(&c.groups, e)),
+            _ => format!("end:err@{}", group_of(&c.groups, e)),
         },
     });
     let max_vms = states.iter().map(|f| f.vms.len()).max().unwrap_or(1);
